@@ -319,10 +319,17 @@ class MultiVector(object):
         if other == 0:
             return self._newMV(dtype=self.value.dtype) + 1
 
-        newMV = self._newMV(np.array(self.value))  # copy
+        if other < 0:
+            # negative powers are powers of the inverse
+            base = self.inv()
+            other = -other
+        else:
+            base = self
+
+        newMV = self._newMV(np.array(base.value))  # copy
 
         for i in range(1, other):
-            newMV = newMV * self
+            newMV = newMV * base
 
         return newMV
 
